@@ -341,6 +341,37 @@ def rule_H9(ctx) -> None:
         ctx.proved("H9", "enum-tables:written-at-class-creation-only", mod.rel, f"{len(writers)} stores through attributes, all in EnumType.__new__ (which fills its local tables)")
 
 
+def rule_H10(ctx) -> None:
+    """the lookup tables of an enum class do not leave the class as they are: whatever a method or property of the enum
+    machinery returns is a member, a value, or a read-only / copied view (MappingProxyType, tuple, list, dict(...)) - the table
+    object itself is a writable handle on the set of members (H9 closes the stores made inside the module, this the ones that
+    could be made through what is handed out)"""
+    from ..absint import Interp
+    mod = ctx.repo.mod(M_ENUM)
+    TABLES = ("_member_map_", "_value_map_", "_member_names_")
+    n = 0
+    leak = None
+    for q, fn in mod.functions():
+        if not q.startswith(("EnumType.", "Enum.")) or q in ("EnumType.__new__", "EnumType.__prepare__"):
+            continue
+        paths = Interp(mod).run(fn)
+        ctx.count(len(paths))
+        for p in paths:
+            if p.outcome != "return" or p.value is None:
+                continue
+            n += 1
+            v = p.value
+            if v[0] == "a" and v[2] in TABLES:
+                leak = leak or (q, fn, v)
+    if leak:
+        q, fn, v = leak
+        ctx.refuted("H10", "enum-tables:not-handed-out", f"{q}:{show(v)}", mod.loc(fn),
+                    f"{q} returns {show(v)}, the class's own table: whoever receives it can add, remove or replace members ({q.split('.')[-1]}[name] = x, .pop, .clear), after which "
+                    "lookup by name, iteration and len() of the enum change", "E.__members__['X'] = E(1); E['X']")
+    else:
+        ctx.proved("H10", "enum-tables:not-handed-out", mod.rel, f"{n} returning paths, none returns a table itself")
+
+
 def rule_H8(ctx) -> None:
     """enums are open on the JSON side as well: a number read from a dict / JSON is kept as it is or turned into a member
     with the open lookup (try_value); the closed lookup `EnumClass(number)` raises for numbers the schema does not list -
@@ -392,6 +423,6 @@ def rule_H8(ctx) -> None:
 
 
 def run(ctx) -> None:
-    for name, fn in (("H9", rule_H9), ("H8", rule_H8), ("H7", rule_H7), ("H1", rule_H1), ("H2", rule_H2), ("H3", rule_H3), ("H4", rule_H4), ("H5", rule_H5), ("H6", rule_H6), ("T2", codec.rule_T2), ("T2b", codec.rule_T2b)):
+    for name, fn in (("H9", rule_H9), ("H10", rule_H10), ("H8", rule_H8), ("H7", rule_H7), ("H1", rule_H1), ("H2", rule_H2), ("H3", rule_H3), ("H4", rule_H4), ("H5", rule_H5), ("H6", rule_H6), ("T2", codec.rule_T2), ("T2b", codec.rule_T2b)):
         ctx.rules_run.append(name)
         fn(ctx)
